@@ -8,6 +8,16 @@ Three parts (see DESIGN.md §5 C04):
     compared token for token (decision, warning, upper limit handed to `random.uniform`, every recorded call of the
     potentials with its separation/charges, every `lifting.insert`, the complete out-state bit for bit);
     oracle on the implementation: accepted  <=>  draw < max(0, true rate); rejected => nothing changed.
+(1b) the root-unit-active handlers of dipoles/dipole_motion.ini (a whole composite object moves), `part_root`:
+    kind 7 RootUnitActiveTwoCompositeObjectSummedBoundingPotentialEventHandler thins (bound = sum over ALL (active leaf, target leaf)
+    pairs of max(0, pair bound), true rate = max(0, sum over ALL pairs of the true derivative)): real `send_event_time` +
+    `send_out_state` with pair-keyed recording stand-in potentials and with the real merged-image / 1/r potentials on mixed-sign
+    composite objects vs the model (`sendroot 7`, bit for bit), and the oracle on the implementation (pair table recomputed by the
+    harness from the potential objects): uniform drawn over [0, bound], confirmed <=> draw < max(0, sum over all pairs), rejected =>
+    all velocities unchanged, confirmed => root-level transfer, bound >= true pair by pair and in the sum for the real 1/r bound.
+    kind 8 RootUnitActiveTwoLeafUnitEventHandler does NOT thin (directly invertible; it belongs to C02's displacement
+    correspondence): implementation-level oracle only (candidate time = time stamp + the real potential's `displacement`, out-state =
+    root-level transfer, no uniform number) and its `send_out_state` against the model (`sendroot 8`).
 (2) domination of the scaled 1/r bound over the merged-image Coulomb derivative: a *search for a failing input*
     on the freshly compiled C routines (never a proof; `Dominates` is a hypothesis of the theorems).
 (3) run level: short real runs of shipped configurations that use the bound; every (bound, true) pair seen by
@@ -31,6 +41,9 @@ ASSUMPTIONS = [
     "the acceptance probability is 'exact' in the sense: accepted <=> value returned by random.uniform(0, bound) < "
     "max(0, true rate); random.uniform itself (CPython: a + (b-a)*random()) is modelled, the uniformity of random() is trusted",
     "state branches have depth <= 2 (root node, leaf children), as in every shipped configuration",
+    "RootUnitActiveTwoLeafUnitEventHandler (kind 8) does not thin: C04 only states (and checks) that it never draws a uniform number and "
+    "that its out-state is the root-level velocity transfer; the correctness of its candidate time is C02's displacement inversion "
+    "(here only compared with the real potential's own `displacement`)",
 ]
 TRUSTED = ["Lean native Float (+ - * / and comparisons are IEEE-754 binary64; Float.pow is libm pow, as in the C routine)",
            "Lean kernel's evaluation of Float literals/comparisons in the three binary64 boundary examples (decide +kernel)",
@@ -970,7 +983,7 @@ def part_root(ctx):
                 draw = Fr(upper) * Fr(dv)
                 band += Fr(1, 2 ** 52) * abs(draw) + Fr(5e-324)
             want = draw < qplus
-            if draw >= 0 and abs(draw - qplus) > band:
+            if draw >= 0 and (band == 0 or abs(draw - qplus) > band):       # band == 0: every number above is exact, ties included
                 if negpair:
                     stats["negpair_decisive"] += 1
                 if confirmed != want:
@@ -1614,7 +1627,10 @@ def replay(ctx, case):
     if "request" in c:
         return {"signature": sig, "model_reply": ctx.model("thin", [c["request"]])[0][:2000],
                 "note": "the request line encodes the time-sliced in-state, the values returned by the mocked potentials, "
-                        "the draw and the lifting answer; see harness/props/c04.py: handler_cases for the implementation side"}
+                        "the draw and the lifting answer; see harness/props/c04.py: handler_cases for the implementation side "
+                        "(`sendroot` lines: in-state, branches handed to send_out_state, the (bound, true) value of every (active leaf, "
+                        "target leaf) pair in loop order — listed again under case['pairs'] with separations and charges —, the draw; "
+                        "implementation side: part_root)"}
     if "ini" in c:
         return {"signature": sig, "note": "re-run: /venv/bin/python harness/c04_run.py <tree> %s %s %s and look at event n=%s"
                                           % (c["ini"], c["end_of_run_time"], c["seed"], c["n"])}
@@ -1624,7 +1640,12 @@ def replay(ctx, case):
 def run(ctx):
     ctx.rule = ("(1) handler cases: seeded generator over (handler kind 1..6, box length, branch shape, charge/no charge, rate regime "
                 "q<0|q=0|0<q<b|q=b|q=b+-ulp|q>b|b=0|b<0|subnormal, draw class 0|thr|thr+-ulp|bound|inner|r-mode, lifting answer); "
-                "distinct = (kind, regime, draw class, outcome, warned, #targets). (2) domination: points of the minimum-image cube "
+                "distinct = (kind, regime, draw class, outcome, warned, #targets). (1b) root-unit-active handlers (kinds 7, 8): two composite "
+                "objects with 2 or 3 leaf units, all units of one moving; per-pair (bound, true) tables from the regimes dominated|sum<=0|"
+                "all<=0|split:<regime of (1)> (stand-in potentials) or from the real merged-image and 1/r potentials on mixed-sign charges "
+                "(thresholds +-ulp and a grid of random() values per scenario); non-trivial = the draw decides and some pair has a "
+                "non-positive bound and a negative true derivative (counted; the run stops if fewer than 50); distinct = (kind, regime, "
+                "draw class, outcome, warned, #leaves, such a pair present, real potentials). (2) domination: points of the minimum-image cube "
                 "(corners/edges with s_x log-spaced to 1e-8 L, symmetry planes, grid, compass-search iterates), both charge signs, all 3 "
                 "directions, several L; distinct = (family, L, bucket). (3) run events of shipped configurations; distinct = (ini, handler, "
                 "accepted, true>0, uses 1/r bound)")
